@@ -513,7 +513,7 @@ def _decide(p, q, quats):
         return UNKNOWN
     if ga == gb:
         return DIFFERENT
-    if not quats and (_free_trig_ring(a, b) or _radical_trig_ring(a, b)):
+    if _free_trig_ring(a, b, quats) or (not quats and _radical_trig_ring(a, b)):
         return DIFFERENT
     if not quats and (_nonzero_radical_multiple(d)):
         return DIFFERENT
@@ -613,16 +613,24 @@ def _radical_trig_ring(a, b):
     return isinstance(arg, Poly) and all(x.kind == "sym" and ee > 0 for mm in arg.t for x, ee in mm) and len(arg.t) >= 1
 
 
-def _free_trig_ring(a, b):
-    """True when every atom of a and b is a symbol or sin/cos of a bare symbol, and sin occurs to degree <= 1.  Then
-    both are in Q[x][cos x_k, sin x_k]/(sin^2 + cos^2 - 1) written on the basis {cos^n, sin cos^n}, which is a basis
-    of that ring and the ring embeds in the functions of x: different normal forms are different functions, whether
-    or not the two sides mention the same atoms (e.g. a non-zero form against 0)."""
+def _free_trig_ring(a, b, quats=()):
+    """True when every atom of a and b is a symbol or sin/cos of (a rational multiple of) a bare symbol, and sin occurs to
+    degree <= 1.  Then both are in Q[x][cos x_k, sin x_k]/(sin^2 + cos^2 - 1) written on the basis {cos^n, sin cos^n},
+    which is a basis of that ring and the ring embeds in the functions of x: different normal forms are different
+    functions, whether or not the two sides mention the same atoms (e.g. a non-zero form against 0).  One multiple per
+    symbol only (cos(x/2) and cos(x) together are related by the double-angle formula).
+    With unit-norm tuples (`quats`): the forms must be reduced modulo |q|^2 = 1 (leading component to degree <= 1).  The
+    ideal generated by the sphere and circle polynomials on disjoint variables is prime with Zariski-dense real points
+    and these polynomials, having coprime leading monomials, are a Groebner basis of it: a non-zero reduced form is a
+    function that does not vanish on the product of the spheres."""
+    mult = {}
+    lead = {q[0] for q in quats}
+    qatoms = {x for q in quats for x in q}
     for p in (a, b):
         for m in p.t:
             for at, e in m:
                 if at.kind == "sym":
-                    if e < 0:
+                    if e < 0 or (at in lead and e > 1):
                         return False
                     continue
                 if at.kind not in ("sin", "cos") or e < 0 or (at.kind == "sin" and e > 1):
@@ -631,7 +639,9 @@ def _free_trig_ring(a, b):
                 if not isinstance(arg, Poly) or len(arg.t) != 1:
                     return False
                 (mono, c), = arg.t.items()
-                if c != 1 or len(mono) != 1 or mono[0][1] != 1 or mono[0][0].kind != "sym" or mono[0][0].key[0] == "pi":
+                if c == 0 or len(mono) != 1 or mono[0][1] != 1 or mono[0][0].kind != "sym" or mono[0][0].key[0] == "pi" or mono[0][0] in qatoms:
+                    return False
+                if mult.setdefault(mono[0][0], c) != c:
                     return False
     return True
 
